@@ -21,7 +21,7 @@ def check(ctx: Ctx):
     spectrum.check_sf_units(sub)
     spectrum.check_sf_structure(sub)
     for f in sub.findings:
-        if f.rule in ("DIM", "AFFINE", "INDEXAGREE"):
+        if f.rule in ("DIM", "AFFINE", "INDEXAGREE", "RAWDATA"):
             ctx.findings.append(f)
     ctx.functions |= sub.functions
     # the droplet count: unit discipline of the Cartesian locator (cells vs lengths) and the relative threshold rules
@@ -33,17 +33,20 @@ def check(ctx: Ctx):
     locate.check_cartesian_flow(sub2)
     locate.check_merge(sub2)
     c18.check_thresholds(sub2)
+    locate.check_label_connectivity(sub2)
     for f in sub2.findings:
-        if f.rule in ("FRAME", "FLOW", "MERGE", "THRESH", "GUARDSHAPE"):
+        if f.rule in ("FRAME", "FLOW", "MERGE", "THRESH", "GUARDSHAPE", "CONNECT"):
             ctx.findings.append(f)
     ctx.functions |= sub2.functions
     ctx.expect("FRAME", 4)
     ctx.expect("MERGE", 6)
     ctx.expect("THRESH", 5)
+    ctx.expect("CONNECT", 3)
     seen = spectrum.check_ls_units(ctx)
     spectrum.check_ls_structure(ctx)
     ctx.expect("DIM", 6)
     ctx.expect("INDEXAGREE", 2)
+    ctx.expect("RAWDATA", 4)
     ctx.expect("EXHAUST", 1)
     ctx.expect("VOLUME", 2)
     ctx.expect("PEAK", 2)
